@@ -173,6 +173,15 @@ func c05Wkb(c *ctx, data []byte, enum int) {
 			}
 			_ = ewkb.Scanner(nil).Scan([]byte(hex.EncodeToString(data)))
 		}
+		// scanners that live across inputs (a rows.Scan loop): each input arrives after a well-formed row with a 4-byte
+		// SRID prefix, and after the previous input - whatever a scanner remembers of earlier rows, this one is decoded
+		// or refused, nothing else
+		_ = c05KeptW.Scan(append([]byte{}, c05PrefixedRow...))
+		_ = c05KeptW.Scan(cp())
+		_ = c05KeptE.Scan(append([]byte{}, c05PrefixedRow...))
+		_ = c05KeptE.Scan(cp())
+		_ = c05KeptP.Scan(append([]byte{}, c05PrefixedRow...))
+		_ = c05KeptP.Scan(cp())
 	})
 	if site != "" {
 		c.emit(panicEvent("wkb decoders", site, hex.EncodeToString(data)))
@@ -183,6 +192,14 @@ func c05Wkb(c *ctx, data []byte, enum int) {
 	e := map[string]interface{}{"k": "wkbdec", "bytes": bytesToInts(data), "res": normSrid(res), "alloc": alloc, "len": len(data), "anyok": anyok, "stable": stable, "nt": anyok, "enum": enum}
 	c.emit(e)
 }
+
+// long-lived scanners and the prefixed row they see before every input (SRID 4326, little endian, POINT(1 2))
+var (
+	c05KeptW       = wkb.Scanner(nil)
+	c05KeptE       = ewkb.Scanner(nil)
+	c05KeptP       = ewkb.ScannerPrefixSRID(nil)
+	c05PrefixedRow = append([]byte{0xe6, 0x10, 0, 0}, wkb.MustMarshal(orb.Point{1, 2})...)
+)
 
 // normSrid: the wkb (non-E) paths do not report a SRID; give them the SRID of the ewkb byte decoder so that
 // the event's "same SRID" clause compares like with like.
